@@ -622,7 +622,7 @@ func (r *Run) chanField(fn *Func, x ast.Expr) (*types.Var, string) {
 		if sel, ok := fn.Info().Selections[se]; ok && sel.Kind() == types.FieldVal {
 			if _, isChan := sel.Type().Underlying().(*types.Chan); isChan {
 				if nt, ok := derefNamedT(sel.Recv()); ok {
-					return sel.Obj().(*types.Var), nt.Obj().Name()
+					return sel.Obj().(*types.Var), r.P.OwnerName(nt)
 				}
 			}
 		}
@@ -648,7 +648,7 @@ func (r *Run) chanField(fn *Func, x ast.Expr) (*types.Var, string) {
 				if v == nil || (fv != nil && fv != v) {
 					return nil, ""
 				}
-				fv, owner = v, nt.Obj().Name()
+				fv, owner = v, r.P.OwnerName(nt)
 			}
 			return fv, owner
 		}
